@@ -27,7 +27,8 @@ def redirect(loc):
 TAGS = [0, "", (), 3, "four", 5.0]      # application tags (reply=) of the requests of a queue: falsy ones are tags too
 
 
-def execute(queue, secure, make="scheme"):
+def execute(queue, secure, make="scheme", slow=False):
+    """slow: the kernel takes at most 9 bytes of a request per send() and every third send() would block"""
     rig = httprig.HttpClientRig(secure, make)
     problems = []
     try:
@@ -40,7 +41,9 @@ def execute(queue, secure, make="scheme"):
         delayed = []            # [rounds to go, bytes]
         hop = {}
         with core.watchdog(20):
-            for rnd in range(30 + 12 * len(queue)):
+            for rnd in range((30 + 12 * len(queue)) * (8 if slow else 1)):
+                if slow and rig.sock() is not None and not rig.sock().closed:
+                    rig.sock().sendplan = ["blockw" if secure else "block"] if rnd % 3 == 2 else [9]
                 rig.service()
                 for d in delayed:
                     d[0] -= 1
@@ -163,11 +166,13 @@ def run(ctx):
         for i, rec in enumerate(recs):
             ctx.case((secure, tuple(rec["queue"])), {"secure": secure, "scripts": rec["queue"], "responses": rec["responses"]} if i == 150 else None)
             make = ("scheme", "connector")[i % 2]
-            real = execute(list(rec["queue"]), secure, make)
+            slow = (i % 3 == 1)
+            real = execute(list(rec["queue"]), secure, make, slow)
             bad = judge(rec, real, secure)
             if bad:
-                ctx.violation(bad + (" [client made from a connector]" if make == "connector" else ""),
-                              {"rec": rec, "secure": secure, "real": real, "make": make})
+                ctx.violation(bad + (" [client made from a connector]" if make == "connector" else "") +
+                              (" [requests leave in pieces of <= 9 bytes]" if slow else ""),
+                              {"rec": rec, "secure": secure, "real": real, "make": make, "slow": slow})
     ctx.exhaustive = True
     return ctx.finish(rule="every request carries an application tag (reply=; 0, '' and () among them) that must come back with its response; "
                            "clients are made alternately from (hostname, port, scheme) and from a ready tcp connector without scheme; "
@@ -181,6 +186,6 @@ def run(ctx):
 
 
 def replay_case(ctx, case):
-    real = execute(list(case["rec"]["queue"]), case["secure"], case.get("make", "scheme"))
+    real = execute(list(case["rec"]["queue"]), case["secure"], case.get("make", "scheme"), case.get("slow", False))
     bad = judge(case["rec"], real, case["secure"])
     return [bad] if bad else []
